@@ -55,7 +55,13 @@ type Lemma struct {
 	Line   int
 }
 
+type Macro struct {
+	Params []string
+	Body   string
+}
+
 type Contracts struct {
+	Macros  map[string]*Macro
 	Funcs   map[string]*FuncContract // key: pkgpath + "::" + name  (repo) or full name (lib)
 	Lemmas  []*Lemma
 	Closed  map[string][]string // interface type name -> implementing type names
@@ -192,6 +198,23 @@ func (cs *Contracts) parseContractFile(file string, repo bool, pkgPath string) e
 			curLemma = &Lemma{Fn: m[1], Params: ps, Pats: pats, Label: label, Body: body, File: file, Line: ln}
 			cs.Lemmas = append(cs.Lemmas, curLemma)
 			last = &curLemma.Body
+		case word == "macro":
+			cur, curLemma = nil, nil
+			// macro name(x, y): body
+			m := lemmaPatRe.FindStringSubmatch(rest)
+			if m == nil {
+				return fmt.Errorf("%s:%d: bad macro header", file, ln)
+			}
+			var ps []string
+			for _, x := range strings.Split(m[2], ",") {
+				if x = strings.TrimSpace(x); x != "" {
+					ps = append(ps, x)
+				}
+			}
+			body := strings.TrimSpace(strings.TrimPrefix(strings.TrimSpace(rest[len(m[0]):]), ":"))
+			mc := &Macro{Params: ps, Body: body}
+			cs.Macros[m[1]] = mc
+			last = &mc.Body
 		case word == "closed":
 			cur, curLemma = nil, nil
 			i := strings.Index(rest, ":")
@@ -321,7 +344,7 @@ func splitTop(s string, sep byte) []string {
 }
 
 func loadContracts(repo string, libDir string, pkgDirs map[string]string) (*Contracts, error) {
-	cs := &Contracts{Funcs: map[string]*FuncContract{}, Closed: map[string][]string{}}
+	cs := &Contracts{Funcs: map[string]*FuncContract{}, Closed: map[string][]string{}, Macros: map[string]*Macro{}}
 	libs, _ := filepath.Glob(filepath.Join(libDir, "*.contracts"))
 	for _, l := range libs {
 		if err := cs.parseContractFile(l, false, ""); err != nil {
@@ -338,4 +361,51 @@ func loadContracts(repo string, libDir string, pkgDirs map[string]string) (*Cont
 		}
 	}
 	return cs, nil
+}
+
+var identRe = regexp.MustCompile(`[A-Za-z_][A-Za-z0-9_]*`)
+
+// expandMacros textually expands macro calls in a contract expression.
+func (cs *Contracts) expandMacros(src string) string {
+	for depth := 0; depth < 8; depth++ {
+		changed := false
+		for name, mc := range cs.Macros {
+			for {
+				idx := -1
+				for _, loc := range regexp.MustCompile(`\b`+regexp.QuoteMeta(name)+`\(`).FindAllStringIndex(src, -1) {
+					if loc[0] > 0 && (src[loc[0]-1] == '.' || src[loc[0]-1] == '$') {
+						continue
+					}
+					idx = loc[0]
+					break
+				}
+				if idx < 0 {
+					break
+				}
+				open := idx + len(name)
+				cl := matchParen(src, open)
+				if cl < 0 {
+					break
+				}
+				args := splitTop(src[open+1:cl], ',')
+				if len(args) != len(mc.Params) {
+					break
+				}
+				body := identRe.ReplaceAllStringFunc(mc.Body, func(id string) string {
+					for i, p := range mc.Params {
+						if p == id {
+							return "(" + args[i] + ")"
+						}
+					}
+					return id
+				})
+				src = src[:idx] + "(" + body + ")" + src[cl+1:]
+				changed = true
+			}
+		}
+		if !changed {
+			break
+		}
+	}
+	return src
 }
